@@ -1,4 +1,5 @@
 """C02 — serialisation is deterministic, side-effect free and a fixed point."""
+import json
 import os
 import tempfile
 from types import SimpleNamespace
@@ -10,7 +11,7 @@ import filegen
 import filemodel
 
 ID = 'C02'
-GEN_SECTIONS = ['GenFile', 'GenDedup', 'FP_file_io', 'FP_dedup']
+GEN_SECTIONS = ['GenFile', 'GenDedup', 'GenDefs', 'FP_file_io', 'FP_dedup', 'FP_definitions']
 COQ_TARGETS = ['Props/C02.vo']
 EXTRACT_TARGETS = ['Extract/Ex_file.vo']
 RUNNER = 'file'
@@ -130,7 +131,9 @@ def one_case(ctx, index, want_model=True):
             blocks1 = block_snapshot(seq)
             h2 = seq.write(f2, create_signature=True)
             d1, d2 = open(f1, 'rb').read(), open(f2, 'rb').read()
-            s2 = pp.Sequence(sysr, use_block_cache=rng.random() < 0.5)
+            used = rng.random() < 0.5
+            s2 = filegen.used_reader(rng, sysr, d) if used else pp.Sequence(sysr, use_block_cache=rng.random() < 0.5)
+            ctx.count('reader.' + ('with_prior_content' if used else 'fresh'))
             s2.read(f1)
             s2.write(f3, create_signature=True)
             d3 = open(f3, 'rb').read()
@@ -179,6 +182,108 @@ def one_case(ctx, index, want_model=True):
     return {'case': case, 'tok1': tok1, 'tok3': tok3, 'sysr': sysr}
 
 
+# ---- user definitions ------------------------------------------------------------------------------------------------
+# Baseline established on the unchanged tree (round 3): these values go through write -> read -> write unchanged ...
+DEF_FIXED_OK = [5, -5, 0, 123456789, 1234567890, 123456789012, -98765432101, 2 ** 53 + 1, True, 0.1, 1 / 3, 1e-9, 1e300, 5.0,
+                1234567890.0, 123456789.5, -0.0, float('nan'), float('inf'), [1, 2, 3], (0.25, 0.25, 0.003), [1234567890123, 2],
+                [], [5.0], 'abc', 'a b', 'a  b', 'TE  4.2 ms   TR  18 ms', 'a\tb', '1abc', '123', 'nan', 'inf', '1 2 3', '1  2',
+                '1e-05', '0x10', '\u00e9pi s\u00e9q \u00fc', '\u65e5\u672c', 'a#b', '#hash', 'x = 3', ['a', 'b'], ['a', 1], 'True']
+# ... and these classes do not (each a genuine deviation from "read a written file, write it again: byte-identical"):
+DEF_KNOWN = {
+    'C02/definition-string-edge-whitespace': ' lead note\t',     # white space at either end is stripped by read()
+    'C02/definition-empty-string': '',                            # read back as an empty array: one blank less on rewrite
+    'C02/definition-numeric-looking-string': '1e5',               # every token parses as a float: rewritten as 100000
+    'C02/definition-string-line-break': 'a\nb',                   # the text after the line break becomes another line
+}
+# printed with str() instead of 9 significant digits (repair: /tmp/c01c02_fix2.patch)
+DEF_NUMPY_SIG = 'C02/definition-numpy-number-not-9g'
+
+
+def defs_roundtrip(defs, sysr=None):
+    """(ok, detail, texts) for a one-block sequence carrying `defs` (list of (key, value))"""
+    import pypulseq as pp
+    seq = pp.Sequence(pp.Opts())
+    seq.add_block(pp.make_delay(1e-3))
+    for k, v in defs:
+        seq.set_definition(k, v)
+    with tempfile.TemporaryDirectory(prefix='pvC02') as d:
+        f1, f2, f3 = (os.path.join(d, n) for n in ('a.seq', 'b.seq', 'c.seq'))
+        try:
+            seq.write(f1, create_signature=True)
+            seq.write(f2, create_signature=True)
+            d1, d2 = open(f1, 'rb').read(), open(f2, 'rb').read()
+            s2 = pp.Sequence(sysr) if sysr is not None else pp.Sequence()
+            s2.read(f1)
+            s2.write(f3, create_signature=True)
+            d3 = open(f3, 'rb').read()
+        except Exception as e:  # noqa: BLE001
+            return False, {'exception': repr(e)}, None
+    if d1 != d2:
+        return False, {'what': 'write twice differs'}, None
+    if d1 != d3:
+        l1, l3 = d1.decode(errors='replace').split('\n'), d3.decode(errors='replace').split('\n')
+        j = next((i for i in range(min(len(l1), len(l3))) if l1[i] != l3[i]), min(len(l1), len(l3)))
+        return False, {'line': j, 'first': l1[j] if j < len(l1) else None, 'rewritten': l3[j] if j < len(l3) else None}, None
+    return True, {}, (d1.decode(errors='replace'), d3.decode(errors='replace'))
+
+
+def defs_stream(ctx, want_model=True):
+    known = {k['signature'] for k in common.load_known() if k.get('property') == ID and k.get('status') == 'known'}
+    # fixed corpus: must round-trip
+    for i, v in enumerate(DEF_FIXED_OK):
+        ok, detail, _ = defs_roundtrip([('K', v)])
+        ctx.evaluated(('def-fixed', i))
+        ctx.count('defs.fixed')
+        if not ok:
+            ctx.fail('C02/definitions-write-read-write-differs', {'kind': 'def-fixed', 'index': i, 'value': repr(v)}, detail)
+    # one reproducer per known class
+    for sig, v in DEF_KNOWN.items():
+        ok, detail, _ = defs_roundtrip([('K', v)])
+        ctx.count('defs.known.%s' % ('fixed-now' if ok else 'reproduced'))
+        if not ok:
+            if sig in known:
+                ctx.fail(sig, {'kind': 'def-known', 'signature': sig, 'value': repr(v)}, detail)
+            else:
+                ctx.notes.append('%s reproduced (value %r: %s); not listed in known_findings.json, recorded here only'
+                                 % (sig, v, json.dumps(detail, default=str)[:160]))
+    import numpy as np
+    for v in (np.array([1234567890123, 5]), np.array([1 / 3], dtype=np.float32)):
+        ok, detail, _ = defs_roundtrip([('K', v)])
+        ctx.evaluated(('def-numpy', repr(v)))
+        if not ok:
+            ctx.fail(DEF_NUMPY_SIG, {'kind': 'def-numpy', 'value': repr(v)}, detail)
+    # random stream: 2-6 definitions per file, values outside the known classes
+    n = {'quick': 60, 'thorough': 3000}[ctx.tier]
+    pend = []
+    for i in range(n):
+        if ctx.out_of_time():
+            break
+        rng = ctx.rng('defs%d' % i)
+        keys = rng.sample(filegen.DEF_KEYS[1:], rng.randint(2, 6))   # 'FOV' must be numeric (set_definition takes its max)
+        defs = [(k, filegen.rand_def_value(rng)) for k in keys]
+        sysr = filegen.rand_system(rng, default_prob=0.5)
+        ok, detail, texts = defs_roundtrip(defs, sysr)
+        ctx.evaluated(('defs', i))
+        for _, v in defs:
+            ctx.count('defs.kind.%s' % ('str' if isinstance(v, str) else 'int' if isinstance(v, int) else 'float'
+                                        if isinstance(v, float) else 'seq'))
+            if isinstance(v, int) and abs(v) >= 10 ** 9:
+                ctx.count('defs.int_10plus_digits')
+            if isinstance(v, str) and ('  ' in v or '\t' in v):
+                ctx.count('defs.str_blank_run_or_tab')
+        case = {'kind': 'defs', 'index': i, 'defs': [[k, repr(v)] for k, v in defs]}
+        if not ok:
+            ctx.fail('C02/definitions-write-read-write-differs', case, detail)
+            continue
+        if want_model and ctx.model_available:
+            try:
+                pend.append({'case': case, 'tok1': filemodel.tokenize(texts[0]), 'tok3': filemodel.tokenize(texts[1]), 'sysr': sysr})
+            except filemodel.TokenizeError as e:
+                ctx.mismatch('tokenize', case, {'error': str(e)})
+    if pend:
+        flush(ctx, pend)
+
+
 def flush(ctx, pend):
     lines = ['file.rw' + filemodel.encode_read(p['tok1'], p['sysr'])[len('file.read'):] for p in pend]
     outs = ctx.model(lines)
@@ -192,7 +297,8 @@ def flush(ctx, pend):
 
 
 def run(ctx):
-    n_cases = {'quick': 110, 'thorough': 4000}[ctx.tier]
+    n_cases = {'quick': 100, 'thorough': 4000}[ctx.tier]
+    defs_stream(ctx)
     pend = []
     for n in range(n_cases):
         if ctx.out_of_time():
@@ -209,6 +315,9 @@ def run(ctx):
 
 
 def replay(ctx, case):
+    if str(case.get('kind', '')).startswith('def'):
+        defs_stream(ctx, want_model=False)
+        return {'case': case, 'result': 'definitions stream re-run; see failures'}
     r = one_case(ctx, int(case['index']))
     if r and ctx.model_available:
         flush(ctx, [r])
